@@ -24,7 +24,7 @@ RULE = (
     "sequential labels == eager result with no duplicated groups. Non-trivial = (blockwise) an old boundary strictly inside "
     "a group; (cohorts) a forced label strictly inside an old chunk."
 )
-BUDGET = {"quick": 300, "thorough": 4000}
+BUDGET = {"quick": 600, "thorough": 4000}
 ASSUMPTIONS = ["rechunk_for_blockwise's no-straddle postcondition is asserted for sequential labels only (its documented domain)"]
 
 
